@@ -18,6 +18,8 @@ def register(M):
     M.new_assoc = new_assoc
 
     def key_eq(ex, m, k1, k2):
+        if re.sub(r"'\w+|[&\s]|mut\b", '', m.kty or '') in ('str', 'String', 'std::string::String'):
+            return M.str_eq(ex, None, [k1, k2], 'bool')       # string keys compare by content
         try:
             sh = M.shape(m.kty)
         except Inconclusive:
@@ -161,7 +163,7 @@ def register(M):
             raise Inconclusive('front()/back() on %r' % (m,))
         if not m.entries:
             return M.none(dty)
-        i = 0 if info['method'] == 'front' else len(m.entries) - 1
+        i = 0 if info['method'] in ('front', 'first_key_value') else len(m.entries) - 1
         return M.some(dty, Adt('(&K, &V)', {(None, 0): Ref(Cell(m.entries[i][0]), ()), (None, 1): Ref(cell, path + (('slot', i),))}))
 
     @reg('LinkedHashMap::pop_front', 'LinkedHashMap::pop_back')
@@ -171,7 +173,7 @@ def register(M):
             raise Inconclusive('pop_front()/pop_back() on %r' % (m,))
         if not m.entries:
             return M.none(dty)
-        i = 0 if info['method'] == 'pop_front' else len(m.entries) - 1
+        i = 0 if info['method'] in ('pop_front', 'pop_first') else len(m.entries) - 1
         k, v = m.entries[i]
         ex.write_path(cell, path, m.set(entries=m.entries[:i] + m.entries[i + 1:]))
         return M.some(dty, Adt('(K, V)', {(None, 0): k, (None, 1): v}))
@@ -205,7 +207,7 @@ def register(M):
         v0 = ex.materialize(v)
         if isinstance(v0, Obj) and v0.kind == 'assoc':
             return Obj('iter', items=tuple(Adt('tuple', {(None, 0): v0.entries[i][0], (None, 1): v0.entries[i][1]})
-                                           for i in orders(ex, len(v0.entries))), ty=dty)
+                                           for i in orders_of(ex, v0)), ty=dty)
         return prev_into_iter(ex, info, v, dty)
     M.into_iter = into_iter
 
@@ -289,6 +291,41 @@ def register(M):
                 es[i] = (es[i][0], es[i][1].set(items=es[i][1].items + (it,)))
                 cell.v = cur.set(entries=tuple(es))
         return cell.v
+
+
+def register_btree(M):
+    """BTreeMap: an association map kept sorted by key.  Keys behind references compare through the referent (`Ord for &T`);
+    the ORDER of two different keys comes from the harness (`M.key_order(ex, key)` -> sortable), equality from deep_eq."""
+    def referent(ex, k):
+        k = ex.materialize(k)
+        while isinstance(k, Ref):
+            k = ex.materialize(ex.read_path(k.cell, k.path))
+        return k
+
+    def btree_from(ex, items, dty):
+        g = generic_args(dty or '')
+        entries = []
+        for it in items:
+            it = ex.materialize(it)
+            k, v = ex.field_of(it, None, 0, '?'), ex.field_of(it, None, 1, '?')
+            for i, (k0, v0) in enumerate(entries):
+                if ex.branch(M.deep_eq(ex, referent(ex, k0), referent(ex, k))):
+                    entries[i] = (k0, v)          # insert of an equal key keeps the old key, replaces the value
+                    break
+            else:
+                entries.append((k, v))
+        order = getattr(M, 'key_order', None)
+        if len(entries) > 1:
+            if order is None:
+                raise Inconclusive('BTreeMap with several keys needs a key order from the harness')
+            entries.sort(key=lambda e: order(ex, referent(ex, e[0])))
+        return Obj('assoc', kty=g[0] if g else '?', vty=g[1] if len(g) > 1 else '?', entries=tuple(entries), linked=True, btree=True)
+    M.btree_from = btree_from
+    for meth in ('len', 'is_empty', 'iter', 'values', 'keys', 'pop_front', 'pop_back', 'front', 'back'):
+        src = ('HashMap::' + meth) if ('HashMap::' + meth) in M.table else ('LinkedHashMap::' + meth)
+        dst = {'pop_front': 'pop_first', 'pop_back': 'pop_last', 'front': 'first_key_value', 'back': 'last_key_value'}.get(meth, meth)
+        if src in M.table:
+            M.table['BTreeMap::' + dst] = M.table[src]
 
 
 def register_linked(M):
